@@ -725,8 +725,8 @@ def run_verus(lines, workdir, name, rlimit=30, threads=8, extra=(), wall=None):
             for nm in names:
                 sub = run_verus(lines, workdir, name + '__iso', rlimit=rlimit, threads=threads,
                                 extra=(*extra, '--verify-root', '--verify-function', '*' + nm), wall=wall)
-                if sub.get('other_errors') or sub.get('status') == 'undecided' and not sub.get('rlimit'):
-                    continue        # the isolated run itself did not work: keep what the full run said
+                if sub.get('other_errors') or (sub.get('status') == 'undecided' and not sub.get('rlimit')) or (sub.get('verified', 0) + sub.get('errors', 0)) < 1:
+                    continue        # the isolated run itself did not work (or matched no function): keep what the full run said
                 again = [r for r in sub.get('failures', []) + sub.get('rlimit', []) if bare(r['function']) == nm]
                 failures = [r for r in failures if bare(r['function']) != nm] + [r for r in sub.get('failures', []) if bare(r['function']) == nm]
                 rlimits = [r for r in rlimits if bare(r['function']) != nm] + [r for r in sub.get('rlimit', []) if bare(r['function']) == nm]
